@@ -707,10 +707,9 @@ def l_parts(ctx, lo, total, labels, rn, G, u, pg, gp, variant, slice0):
             ctx.transitions += 1
             _vec_check(GB + ".latentfn:value", got, [-v for v in R.gb_value(h, x, nbf, 2)], desc + f" selection {list(x)} nbestfndr {nbf}")
 
-    def part_enc():
+    def make_part_enc(cls, dt):
         # the other OHV encodings (fixed slice: first genotype / effects of every (layout,total))
-        for cls, dt in ((OptimalHaploidValueRealSelectionProblem, "float64"), (OptimalHaploidValueIntegerSelectionProblem, "int64"),
-                        (OptimalHaploidValueBinarySelectionProblem, "int64")):
+        def part_enc():
             lower = numpy.zeros(nx, dtype=dt)
             upper = numpy.ones(nx, dtype=dt)
             ctx.flag("L:" + cls.__name__)
@@ -726,8 +725,40 @@ def l_parts(ctx, lo, total, labels, rn, G, u, pg, gp, variant, slice0):
             ctx.transitions += 1
             _vec_check(cls.__name__ + ".latentfn:value", got, [-(exp_rows[0][t] + exp_rows[nx - 1][t]) / 2 for t in range(T)],
                        desc + f" contributions {x.tolist()}")
+        return part_enc
 
-    return [part_ohv, part_opv, part_gb] + ([part_enc] if slice0 else [])
+    encs = [make_part_enc(OptimalHaploidValueRealSelectionProblem, "float64"),
+            make_part_enc(OptimalHaploidValueIntegerSelectionProblem, "int64"),
+            make_part_enc(OptimalHaploidValueBinarySelectionProblem, "int64")]
+
+    def part_protocol():
+        # the selection protocols' own problem() construction (anchor OptimalHaploidValueSelection.py and siblings)
+        from pybrops.breed.prot.sel.OptimalHaploidValueSelection import OptimalHaploidValueSubsetSelection
+        from pybrops.breed.prot.sel.OptimalPopulationValueSelection import OptimalPopulationValueSubsetSelection
+        from pybrops.breed.prot.sel.GenotypeBuilderSelection import GenotypeBuilderSubsetSelection
+        kw = dict(ncross=1, nparent=d, nmating=1, nprogeny=1, nobj=T)
+        ctx.flag("L:protocol.problem()")
+        with POISON:
+            sel = OptimalHaploidValueSubsetSelection(ntrait=T, nhaploblk=total, unique_parents=unique, **kw)
+            pr = sel.problem(pgmat=pg, gmat=None, ptdf=None, bvmat=None, gpmod=gp, t_cur=0, t_max=1)
+        ctx.transitions += 1
+        unwritten(SITES[1], pr.ohvmat, "ohvmat")
+        for r in range(nx):
+            _vec_check("OptimalHaploidValueSubsetSelection.problem:ohv-value", pr.ohvmat[r], exp_rows[r], desc + f" cross {xm[r].tolist()}")
+        with POISON:
+            sel = OptimalPopulationValueSubsetSelection(ntrait=T, nhaploblk=total, **kw)
+            pr = sel.problem(pgmat=pg, gmat=None, ptdf=None, bvmat=None, gpmod=gp, t_cur=0, t_max=1)
+        ctx.transitions += 1
+        check_hmat(SITES[2], pr.haplomat, (2, n, total, T), h, tv, desc)
+        _vec_check("OptimalPopulationValueSubsetSelection.problem:latentfn-value", pr.latentfn(numpy.array([0, 2], dtype="int64")),
+                   [-v for v in R.best_sum(h, (0, 2), 2)], desc + " selection [0, 2]")
+        with POISON:
+            sel = GenotypeBuilderSubsetSelection(ntrait=T, nhaploblk=total, nbestfndr=1, **kw)
+            pr = sel.problem(pgmat=pg, gmat=None, ptdf=None, bvmat=None, gpmod=gp, t_cur=0, t_max=1)
+        ctx.transitions += 1
+        check_hmat(SITES[3], pr.haplomat, (2, n, total, T), h, tv, desc)
+
+    return [part_ohv, part_opv, part_gb] + (encs + [part_protocol] if slice0 else [])
 
 
 def l_case(ctx, lo, total, labels, rn, G, u, pg, gp, case):
@@ -802,7 +833,7 @@ def finalize(ctx, tier, seed):
         assert f"L:{lens}" in ctx.flags, lens
     for f in ("B", "P:zero-length-chromosome-with-several-markers", "L:layout-with-an-empty-equal-width-bin",
               "L:OptimalHaploidValueRealSelectionProblem", "L:OptimalHaploidValueIntegerSelectionProblem",
-              "L:OptimalHaploidValueBinarySelectionProblem"):
+              "L:OptimalHaploidValueBinarySelectionProblem", "L:protocol.problem()"):
         assert f in ctx.flags, f
     c = ctx.counters
     # the clustered layouts of S8 and boundary ties are in scope (input-side classification, independent of the library)
